@@ -761,6 +761,11 @@ package mcp
 //@   ghost uri := at(locked, req.Params.URI)
 //@   ghost sess := at(locked, req.Session)
 //@   ensures @subscription-removed result.1 == nil ==> !at(unlocked, inDom(s.resourceSubscriptions, uri)) || !at(unlocked, inDom(s.resourceSubscriptions[uri], sess))
+//@   ghost inner := at(locked, rawGet(s.resourceSubscriptions, uri))
+//@   ensures @only-the-caller-leaves-the-table forall k *ServerSession :: {at(locked, inDom(inner, k))} result.1 == nil && k != sess && at(locked, inDom(s.resourceSubscriptions, uri)) && at(locked, inDom(inner, k)) ==> at(unlocked, inDom(inner, k))
+//@   ensures @entry-dropped-only-when-empty result.1 == nil && at(locked, inDom(s.resourceSubscriptions, uri)) && !at(unlocked, inDom(s.resourceSubscriptions, uri)) ==> at(unlocked, len(inner)) == 0
+//@   ensures @kept-entry-is-the-same-table result.1 == nil && at(locked, inDom(s.resourceSubscriptions, uri)) && at(unlocked, inDom(s.resourceSubscriptions, uri)) ==> at(unlocked, rawGet(s.resourceSubscriptions, uri)) == inner
+//@   ensures @other-uris-untouched forall u string :: {at(locked, inDom(s.resourceSubscriptions, u))} result.1 == nil && u != uri ==> (at(unlocked, inDom(s.resourceSubscriptions, u)) <==> at(locked, inDom(s.resourceSubscriptions, u))) && at(unlocked, rawGet(s.resourceSubscriptions, u)) == at(locked, rawGet(s.resourceSubscriptions, u))
 //@ func (*Server).disconnect [C18]
 //@   requires s != nil
 //@   modifies *
@@ -785,3 +790,40 @@ package mcp
 //@   loop 1: invariant @modern-recipients-are-subscribers local(newSessions) != nil && local(newSessions) != local(subscribedSessions) && (forall k *ServerSession :: {inDom(local(newSessions), k)} inDom(local(newSessions), k) ==> inDom(local(subscribedSessions), k) && rawGet(local(newSessions), k) == rawGet(local(subscribedSessions), k))
 //@   loop 1: invariant @legacy-recipients-are-subscribers forall i int :: {absElem(local(legacySessions), off(local(legacySessions)) + i)} 0 <= i && i < len(local(legacySessions)) ==> inDom(local(subscribedSessions), local(legacySessions)[i])
 //@   loop 1: invariant @table-entry-unchanged local(subscribedSessions) == at(locked, s.resourceSubscriptions[params.URI])
+
+// The client side of "beats caches": when a list-changed / resource-updated notification arrives, the session's cached
+// answers for that method (that URI) are dropped before the application's handler hears about the change, so a list
+// or read issued from the handler (or after it) cannot be answered from a cache filled before the change.
+//@ func (*Client).callToolChangedHandler [C18]
+//@   track invalidate as drop
+//@   track GetSession as sess
+//@   callee h: modifies *
+//@   requires c != nil && req != nil
+//@   modifies *
+//@   ensures @cache-dropped calls(sess) == 1 && typeIs(callResult(sess, 1, 0), *ClientSession) ==> calls(drop) == 1
+//@   assert at call h: @cache-dropped-before-the-application-hears calls(sess) == 1 && (typeIs(callResult(sess, 1, 0), *ClientSession) ==> calls(drop) == 1)
+//@ func (*Client).callPromptChangedHandler [C18]
+//@   track invalidate as drop
+//@   track GetSession as sess
+//@   callee h: modifies *
+//@   requires c != nil && req != nil
+//@   modifies *
+//@   ensures @cache-dropped calls(sess) == 1 && typeIs(callResult(sess, 1, 0), *ClientSession) ==> calls(drop) == 1
+//@   assert at call h: @cache-dropped-before-the-application-hears calls(sess) == 1 && (typeIs(callResult(sess, 1, 0), *ClientSession) ==> calls(drop) == 1)
+//@ func (*Client).callResourceChangedHandler [C18]
+//@   track invalidate as drop
+//@   track GetSession as sess
+//@   callee h: modifies *
+//@   requires c != nil && req != nil
+//@   modifies *
+//@   ensures @caches-dropped calls(sess) == 1 && typeIs(callResult(sess, 1, 0), *ClientSession) ==> calls(drop) == 2
+//@   assert at call h: @caches-dropped-before-the-application-hears calls(sess) == 1 && (typeIs(callResult(sess, 1, 0), *ClientSession) ==> calls(drop) == 2)
+//@ func (*Client).callResourceUpdatedHandler [C18]
+//@   track invalidateKey as drop
+//@   track GetSession as sess
+//@   snapshot got after call GetSession
+//@   callee h: modifies *
+//@   requires c != nil && req != nil
+//@   modifies *
+//@   ensures @cached-read-dropped calls(sess) == 1 && typeIs(callResult(sess, 1, 0), *ClientSession) && at(got, req.Params) != nil ==> calls(drop) == 1 && callArg(drop, 1, 1) == at(got, req.Params.URI)
+//@   assert at call h: @cached-read-dropped-before-the-application-hears calls(sess) == 1 && (typeIs(callResult(sess, 1, 0), *ClientSession) && at(got, req.Params) != nil ==> calls(drop) == 1)
